@@ -234,17 +234,17 @@ MISSING = Missing()
 # full pool (thorough) -- (label, value)
 V_FULL: list[tuple[str, Any]] = [
     ("nil", None), ("true", True), ("false", False), ("0", 0), ("1", 1), ("-1", -1), ("2", 2), ("7", 7),
-    ("huge", HUGE), ("giant", 10**5000), ("1.5", 1.5), ("-2.5", -2.5), ("0.0", 0.0), ("inf", INF), ("-inf", -INF), ("nan", NAN),
+    ("huge", HUGE), ("e17", 10**17), ("giant", 10**5000), ("1.5", 1.5), ("-2.5", -2.5), ("0.0", 0.0), ("inf", INF), ("-inf", -INF), ("nan", NAN),
     ("s_empty", ""), ("s_space", " "), ("s_a", "a"), ("s_ab", "ab"), ("s_a_b", "a b"), ("s_1", "1"),
     ("s_-2", "-2"), ("s_1.5", "1.5"), ("s_1e999", "1e999"), ("s_nan", "nan"), ("s_abc", "abc"),
-    ("s_pct", "%"), ("s_badb64", "/w=="), ("s_pctFF", "%FF"), ("s_html", "<b>"), ("s_digits", "9" * 30), ("s_giant", "9" * 5000),
+    ("s_pct", "%"), ("s_badb64", "/w=="), ("s_pctFF", "%FF"), ("s_html", "<b>"), ("s_digits", "9" * 30), ("s_e17", "1" + "0" * 17), ("s_giant", "9" * 5000),
     ("l_empty", []), ("l_123", [1, 2, 3]), ("l_str", ["b", "a", "B"]), ("l_nil", [None, 1, None]),
     ("l_nested", [[1], [2, [3]]]), ("l_dicts", [{"a": 1}, {"a": 2}, {"b": 3}]), ("l_mixed", [1, "a", None, 2.5]),
     ("d_empty", {}), ("d_ab", {"a": 1, "b": [1, 2]}), ("range", range(1, 4)), ("missing", MISSING),
 ]
 # quick sub-pool: one representative per type and conversion class
-_QUICK = {"nil", "true", "false", "0", "-1", "7", "huge", "giant", "1.5", "inf", "nan", "s_empty", "s_a", "s_a_b", "s_-2",
-          "s_1.5", "s_badb64", "s_pct", "l_empty", "d_empty", "l_123", "l_str", "l_dicts", "d_ab", "range", "missing"}
+_QUICK = {"nil", "true", "false", "0", "-1", "7", "huge", "e17", "giant", "1.5", "inf", "nan", "s_empty", "s_a", "s_a_b", "s_-2",
+          "s_1.5", "s_e17", "s_badb64", "s_pct", "l_empty", "d_empty", "l_123", "l_str", "l_dicts", "d_ab", "range", "missing"}
 V_QUICK: list[tuple[str, Any]] = [(k, v) for k, v in V_FULL if k in _QUICK]
 
 
